@@ -147,6 +147,30 @@ func enumerateCrashSites(c *Ctx, g *load.G) []crashSite {
 					continue
 				}
 				np, nm := 0, map[string]int{}
+				// locals that hold the single-value result of a pointer-valued map lookup: `v := m[k]` - nil when the key
+				// is absent, exactly like m[k] itself
+				lookups := map[types.Object]*ast.IndexExpr{}
+				ast.Inspect(fd.Body, func(n ast.Node) bool {
+					as, ok := n.(*ast.AssignStmt)
+					if !ok || len(as.Lhs) != 1 || len(as.Rhs) != 1 {
+						return true
+					}
+					ix, ok := stripParens(as.Rhs[0]).(*ast.IndexExpr)
+					id, ok2 := as.Lhs[0].(*ast.Ident)
+					if !ok || !ok2 {
+						return true
+					}
+					if t := p.TypesInfo.TypeOf(ix.X); t != nil {
+						if mt, ok := t.Underlying().(*types.Map); ok {
+							if _, isPtr := mt.Elem().Underlying().(*types.Pointer); isPtr {
+								if obj := p.TypesInfo.ObjectOf(id); obj != nil {
+									lookups[obj] = ix
+								}
+							}
+						}
+					}
+					return true
+				})
 				ast.Inspect(fd.Body, func(n ast.Node) bool {
 					switch x := n.(type) {
 					case *ast.CallExpr:
@@ -172,6 +196,25 @@ func enumerateCrashSites(c *Ctx, g *load.G) []crashSite {
 							out = append(out, crashSite{Key: qual + ":assert:" + nospace(x), Pos: x.Pos(), Kind: "assert", What: "unchecked type assertion " + nospace(x), Func: fn, Pkg: pkgName, Suffix: suffix, Node: x, Fd: fd})
 						}
 					case *ast.SelectorExpr:
+						// v.f with v := M[k] and no nil test of v in between
+						if id, ok := x.X.(*ast.Ident); ok {
+							if lix := lookups[p.TypesInfo.ObjectOf(id)]; lix != nil && lix.Pos() < x.Pos() {
+								tested := false
+								ast.Inspect(fd.Body, func(m ast.Node) bool {
+									if be, ok := m.(*ast.BinaryExpr); ok && (be.Op == token.EQL || be.Op == token.NEQ) && be.Pos() > lix.Pos() && be.Pos() < x.Pos() {
+										if (nospace(be.X) == id.Name && nospace(be.Y) == "nil") || (nospace(be.Y) == id.Name && nospace(be.X) == "nil") {
+											tested = true
+										}
+									}
+									return true
+								})
+								if !tested {
+									k := qual + ":mapderef:" + nospace(lix) + " held in " + id.Name
+									out = append(out, crashSite{Key: k, Pos: x.Pos(), Kind: "mapderef", What: "field access on " + id.Name + ", the result of map lookup " + nospace(lix) + " (nil when the key is absent), with no nil test in between", Func: fn, Pkg: pkgName, Suffix: suffix, Node: x, Fd: fd})
+								}
+							}
+							return true
+						}
 						// M[k].f with pointer-valued map
 						ix, ok := x.X.(*ast.IndexExpr)
 						if !ok {
